@@ -92,6 +92,8 @@ class Run:
         outdir = os.path.join(self.build, "expanded")
         os.makedirs(outdir, exist_ok=True)
         out = os.path.join(outdir, package + ".rs")
+        if package in getattr(self, "_expanded_done", set()):
+            return outdir
         import hashlib
         # one target directory per checked tree: cargo names path-dependency artifacts by workspace-relative path, so a
         # shared directory would let a proc-macro built from another checkout be reused as "fresh"
@@ -102,6 +104,7 @@ class Run:
             raise Undecided("macro expansion of %s failed (the tree does not compile?):\n%s" % (package, se[-2000:]))
         open(out, "w").write(so)
         self.notes.append("expanded %s in %.1fs" % (package, t))
+        self._expanded_done = getattr(self, "_expanded_done", set()) | {package}
         return outdir
 
     def extract(self, templates, name="all", expanded=None):
@@ -314,8 +317,10 @@ class Run:
             "wall_s": round(wall, 2),
             "violations": len(self.violations),
         }
-        os.makedirs(os.path.join(self.root, "evidence"), exist_ok=True)
-        json.dump(ev, open(os.path.join(self.root, "evidence", self.pid + ".json"), "w"), indent=1)
+        # evidence/ describes /repo; a development run against another tree (VERIF_REPO) must not overwrite it
+        evdir = os.path.join(self.root, "evidence") if os.path.abspath(self.repo) == "/repo" else os.path.join(self.root, "build", "evidence-other-tree")
+        os.makedirs(evdir, exist_ok=True)
+        json.dump(ev, open(os.path.join(evdir, self.pid + ".json"), "w"), indent=1)
         for v in self.violations:
             tail = "" if v.get("failing_input") else " no-failing-input-found"
             print("VIOLATION property=%s replay=%s obligation=%s%s" % (self.pid, v["replay"], v["obligation"], tail))
@@ -379,10 +384,14 @@ def tree_key(run):
     return h.hexdigest()[:20]
 
 
+# the verification hooks of /repo (MANIFEST.hooks) are compiled in for the harness crate, the replay binary and the snippets
+HOOK_RUSTFLAGS = "--cfg unhindered_ec_verif"
+
+
 def kani_cmd(args, cwd, timeout):
     """cargo kani under an address-space limit and a wall-clock limit"""
     cmd = "ulimit -v %d; exec cargo kani %s" % (KANI_MEM_KB, " ".join(args))
-    return sh(["bash", "-c", cmd], cwd=cwd, timeout=timeout)
+    return sh(["bash", "-c", cmd], cwd=cwd, timeout=timeout, env={"RUSTFLAGS": HOOK_RUSTFLAGS})
 
 
 def parse_terse(out):
@@ -550,7 +559,7 @@ def run_kani_property(run, cfg):
 
 def replay_tape(run, d, harness, tape):
     """run the harness body on the concrete values, on the ordinary toolchain against the real crates"""
-    rc, so, se, _ = sh(["cargo", "build", "--offline", "--bin", "kh-replay"], cwd=d, timeout=1200)
+    rc, so, se, _ = sh(["cargo", "build", "--offline", "--bin", "kh-replay"], cwd=d, timeout=1200, env={"RUSTFLAGS": HOOK_RUSTFLAGS})
     if rc != 0:
         return {"reproduced": False, "output": "replay binary did not build: " + se[-600:], "cmd": None}
     os.makedirs(os.path.join(run.root, "replays"), exist_ok=True)
@@ -561,7 +570,7 @@ def replay_tape(run, d, harness, tape):
     json.dump(tape, open(tp, "w"))
     exe = os.path.join(d, "target", "debug", "kh-replay")
     rc, so, se, _ = sh([exe, body, tp], timeout=120, env={"RUST_BACKTRACE": "0"})
-    cmd = "cd %s && cargo build --offline --bin kh-replay 2>/dev/null; %s %s %s" % (d, exe, body, tp)
+    cmd = "cd %s && RUSTFLAGS='%s' cargo build --offline --bin kh-replay 2>/dev/null; %s %s %s" % (d, HOOK_RUSTFLAGS, exe, body, tp)
     return {"reproduced": rc == 1, "output": (so + se)[-1500:], "cmd": cmd}
 
 
@@ -592,7 +601,7 @@ def run_compile_snippets(run, cfg):
     lock = os.path.join(run.repo, "Cargo.lock")
     if os.path.exists(lock):
         shutil.copy(lock, os.path.join(d, "Cargo.lock"))
-    rc, so, se, wall = sh(["cargo", "check", "--offline", "--bins", "--keep-going", "--message-format=json"], cwd=d, timeout=1500)
+    rc, so, se, wall = sh(["cargo", "check", "--offline", "--bins", "--keep-going", "--message-format=json"], cwd=d, timeout=1500, env={"RUSTFLAGS": HOOK_RUSTFLAGS})
     errs = {}
     finished = set()
     for l in so.split("\n"):
@@ -622,7 +631,7 @@ def run_compile_snippets(run, cfg):
                 run.report_failure("must-compile[%s]" % name, "a call order the type-state must permit is rejected",
                                    "\n".join(x[2] for x in e)[:3000] or "no artifact produced",
                                    failing_input={"snippet": txt, "compiler_output": "\n".join(x[2] for x in e)[:2000]},
-                                   replay_cmd="cd %s && cargo check --offline --bin %s" % (d, name))
+                                   replay_cmd="cd %s && RUSTFLAGS='%s' cargo check --offline --bin %s" % (d, HOOK_RUSTFLAGS, name))
         else:
             hit = [x for x in e if x[0] == code and ("`%s`" % method) in x[1]]
             ok = bool(hit)
@@ -634,7 +643,7 @@ def run_compile_snippets(run, cfg):
                 run.report_failure("must-not-compile[%s]" % name, "an illegal builder call sequence type-checks",
                                    "expected %s on `%s`; the snippet compiled" % (code, method),
                                    failing_input={"snippet": txt, "compiler_output": "compiles without error"},
-                                   replay_cmd="cd %s && cargo check --offline --bin %s" % (d, name))
+                                   replay_cmd="cd %s && RUSTFLAGS='%s' cargo check --offline --bin %s" % (d, HOOK_RUSTFLAGS, name))
     return None
 
 
